@@ -204,6 +204,10 @@ def m_int(vm, args, kw):
         return SInt(z3.If(v.e, 1, 0))
     if isinstance(v, Sym):
         raise Unsupported('int of ' + type(v).__name__)
+    if vm.is_interp_class(type(v)) and len(args) == 1:
+        m = vm.static_lookup(type(v), '__int__') or vm.static_lookup(type(v), '__index__')
+        if m is not None and vm.is_interp_callable(m):
+            return vm.call(m, [v], {})
     return int(*args, **kw)
 
 
